@@ -171,13 +171,17 @@ def run(ctx):
                      ('interface.DBusInterface.addSignal', ('nargs',))):
         fi = prog.func(q)
         src = ast.unparse(fi.node)
+        stored = {}
+        for p_ in Interp(prog, exc_edges=False).run(fi):
+            for e in iter_events(p_.trace):
+                if e[0] == 'setattr' and e[2] in attrs:
+                    stored.setdefault(e[2], []).append(e[3])
         for a in attrs:
-            ok = False
-            for n in ast.walk(fi.node):
-                if isinstance(n, ast.Assign) and \
-                        isinstance(n.targets[0], ast.Attribute) and \
-                        n.targets[0].attr == a:
-                    ok = 'genCompleteTypes' in ast.unparse(n.value)
+            # the stored count is computed from the splitter's output
+            # (directly or through a helper, which is inlined)
+            ok = bool(stored.get(a)) and all(contains(
+                v, lambda x: kind(x) == 'call' and
+                x[1] == 'marshal.genCompleteTypes') for v in stored[a])
             ctx.ob('C19.D3', q, 'counts-with-splitter:%s' % a, ok,
                    '%s must be the number of complete types, counted with '
                    'genCompleteTypes' % a)
@@ -252,7 +256,12 @@ def shape_of(v, pobj):
             return 'const:' + s
         return None
     if kind(v) == 'call' and v[1] == 'getattr':
-        return 'declared-dbusSignature'
+        # ... of the VALUE (the encoder reads dbusOrder from the value too:
+        # a declaration made on the instance must be found)
+        if v[3] and v[3][0] == pobj and len(v[3]) > 1 and \
+                v[3][1] == C('dbusSignature'):
+            return 'declared-dbusSignature'
+        return None
     if kind(v) == 'binop' and v[1] == '+':
         flat = flatten_concat(v)
         if len(flat) == 2 and flat[0] == C('a') and T(flat[1]):
